@@ -7,7 +7,7 @@ get_conf_single.  The line loop of parse_keywords itself is checked by the bound
 import z3
 
 from pyvc.exec import Raise, Unsupported
-from pyvc.sym import (VInt, VBool, VStr, VBytes, VNone, NONE, VTuple, VInst, VOpaque, VUnion, VConc, VFunc, VSeq, VMap,
+from pyvc.sym import (VInt, VBool, VStr, VBytes, VNone, NONE, VTuple, VInst, VOpaque, VUnion, VConc, VFunc, VSeq, VMap, VDictLit, VList,
                       concrete_of, mk_str, zand, zor, TStr, TMap, TOpt)
 from pyvc import extract
 from contracts import control as K
@@ -19,19 +19,22 @@ F_QUOTES = 'value-wrapped-in-quotes'
 F_OKLINE = 'data-line-reads-OK'
 F_KEYLINE = 'data-line-starts-with-requested-key'
 TRUSTED = C01.TRUSTED + [
-    'the line loop of parse_keywords (accumulation across lines) is NOT under contract: bounded twin only',
+    'parse_keywords is executed with its line loop unrolled over replies of at most three lines (every line text, every pattern of equal / different keys, both modes): '
+    'longer replies and mixed shapes are covered by the bounded twin only; str.strip() returns text without whitespace unchanged; keyword names contain no whitespace or "=" (A9)',
     'Deferred.addCallback passes the result of the previous callback (A3)',
 ]
 LEVEL = 'proof'
 MANIFEST = {
     'category': 'proof',
-    'technique': 'contract-based deductive verification of the data-block line path (real FSM functions), of unquote() against identity outside a recorded region, and of the result-selecting callbacks (pyvc VCs, z3/cvc5); the multi-line accumulation loop of parse_keywords is covered by the bounded CPython twin only',
+    'technique': 'contract-based deductive verification of the data-block line path (real FSM functions), of unquote() against identity outside a recorded region, and of the result-selecting callbacks (pyvc VCs, z3/cvc5); parse_keywords discharged with its loop unrolled for replies of <= 3 lines (lemma cuts for the position of the first "="), longer replies by the bounded CPython twin',
     'text': 'Proved for all line texts: inside a data block every line other than "." is appended (or handed to the per-line callback) with exactly one leading '
             'dot removed and nothing else changed, and only "." ends the block - so a multi-line value reaches parse_keywords with all its lines intact and in '
             'order; unquote(v) = v for every v not wrapped in a pair of quotes; get_info_single returns values[key], get_conf_single the first value. '
-            'The accumulation loop of parse_keywords (key/value splitting, unset vs empty, repeated options) is not under contract here: it is exercised '
-            'exhaustively over the critical alphabet by the twin (labelled bounded).',
-    'level_note': 'Bounded (B, never counted as proved): parse_keywords loop - 12k (quick) / 107k (thorough) sessions through a scripted Tor. '
+            'parse_keywords, for replies of one to three K=V lines of arbitrary text and every pattern of equal keys, in both modes: one entry per distinct key, a '
+            'key reported once maps to unquote(value), a key reported several times to the list of its values in order, empty values kept; a bare keyword reads '
+            'as unset (DEFAULT) and differs from K= (empty string); in multi-line mode a following line without "=" is appended to the value after a newline. '
+            'Replies longer than three lines are exercised by the twin (labelled bounded).',
+    'level_note': 'Bounded (B, never counted as proved): parse_keywords on replies of more than three lines / mixed shapes - 12k (quick) / 107k (thorough) sessions through a scripted Tor. '
                   'Known findings (regions excluded, reported as KNOWN-FINDING): values wrapped in quotes lose them (unquote, needed by PROTOCOLINFO); a data line '
                   'reading OK is dropped; a data line "k=..." for the requested key k starts a new value (parse_keywords cannot see data-block structure).',
 }
@@ -117,8 +120,220 @@ def unit_single(which):
     return run
 
 
+F_unq = z3.Function('unquote_spec', z3.StringSort(), z3.StringSort())
+
+
+class ParseModels(Models13):
+    """parse_keywords unrolled over a reply of n lines (the line list is given; unquote through its contract, proved by C13/unquote)"""
+    def __init__(self):
+        Models13.__init__(self)
+        self.reply_lines = None
+        self.lemma_ctx = None
+        self.lemmas_done = set()
+
+    def split_hook(self, ex, path, s, args, kw):
+        if len(args) == 1 and concrete_of(args[0]) == (True, '\n') and self.reply_lines is not None:
+            return [(path, ex.new_list(path, [VStr(l) for l in self.reply_lines]))]
+        return Models13.split_hook(self, ex, path, s, args, kw)
+
+    def str_method(self, ex, path, s, name, args, kw):
+        if name == 'split' and self.lemma_ctx is not None and len(args) == 2 and concrete_of(args[0]) == (True, '='):
+            # proof cut: in key + '=' + value, with no '=' in the key, the first '=' is the separator.  Stated as an obligation
+            # of its own on the current (small) path condition, then used as a hypothesis.
+            parts = []
+
+            def flat(t):
+                if t.decl().kind() == z3.Z3_OP_SEQ_CONCAT:
+                    for c in t.children():
+                        flat(c)
+                else:
+                    parts.append(t)
+            flat(s.t)
+            if len(parts) >= 3 and z3.is_string_value(parts[1]) and parts[1].as_string() == '=':
+                lemma = z3.IndexOf(s.t, mk_str('='), 0) == z3.Length(parts[0])
+                key = 'lemma.first_equals_sign_separates[%s]' % parts[0]
+                rest = parts[2] if len(parts) == 3 else z3.Concat(*parts[2:])
+                lemma2 = z3.SubString(s.t, z3.Length(parts[0]) + 1, z3.Length(s.t)) == rest
+                if key not in self.lemmas_done:
+                    self.lemmas_done.add(key)
+                    self.lemma_ctx.oblige(key, path, lemma)
+                    self.lemma_ctx.oblige(key.replace('first_equals_sign_separates', 'text_after_the_separator_is_the_value'), path, lemma2)
+                path.assume(lemma)
+                path.assume(lemma2)
+                if concrete_of(args[1]) == (True, 1):
+                    # by the two lemmas s.split('=', 1) == [s[:i], s[i+1:]] is exactly [key, rest]
+                    return [(path, ex.new_list(path, [VStr(parts[0]), VStr(rest)]))]
+        outs = Models13.str_method(self, ex, path, s, name, args, kw)
+        if name == 'strip' and not args and self.reply_lines is not None and not concrete_of(s)[0]:
+            # fact of str.strip(): text without any of its whitespace characters is returned unchanged
+            no_ws = zand(*[z3.Not(z3.Contains(s.t, mk_str(c))) for c in ' \t\n\r\x0b\x0c\x1c\x1d\x1e\x1f'])
+            for p_, r_ in outs:
+                if isinstance(r_, VStr):
+                    p_.assume(z3.Implies(no_ws, r_.t == s.t))
+        return outs
+
+    def contract_for(self, ex, path, f, args, kw):
+        if f.qualname == 'unquote' and self.reply_lines is not None:
+            return [(path, VStr(F_unq(args[0].t)))]
+        return Models13.contract_for(self, ex, path, f, args, kw)
+
+
+def _unq_eq(vt, x):
+    """vt == unquote(x), stated on the arguments when vt is itself an application of the (uninterpreted) unquote contract"""
+    vt = z3.simplify(vt)
+    if z3.is_app(vt) and vt.decl().name() == 'unquote_spec':
+        return vt.arg(0) == x
+    return vt == F_unq(x)
+
+
+def _partitions(n):
+    if n == 0:
+        yield []
+        return
+    for p in _partitions(n - 1):
+        for i in range(len(p)):
+            yield p[:i] + [p[i] + [n - 1]] + p[i + 1:]
+        yield p + [[n - 1]]
+
+
+def unit_parse(n, part, multiline):
+    """n reply lines K_i=V_i whose keys are equal exactly within the blocks of `part`"""
+    def run(ctx):
+        ctx.fn(MODULE, 'parse_keywords')
+        ex = ctx.ex
+        path = ctx.new_path()
+        K_ = [z3.String('key%d' % i) for i in range(n)]
+        V_ = [z3.String('value%d' % i) for i in range(n)]
+        lines = []
+        for i in range(n):
+            ctx.input('key%d' % i, VStr(K_[i]))
+            ctx.input('value%d' % i, VStr(V_[i]))
+            # A9: a keyword is non-empty and has no '=', space or line break; a value has no line break
+            path.assume(z3.Length(K_[i]) > 0)
+            for ch in ('=', ' ', '\n', '\t', '\r', '\x0b', '\x0c', '\x1c', '\x1d', '\x1e', '\x1f'):
+                path.assume(z3.Not(z3.Contains(K_[i], mk_str(ch))))
+            path.assume(z3.Not(z3.Contains(V_[i], mk_str('\n'))))
+            lines.append(z3.Concat(K_[i], mk_str('='), V_[i]))
+        block_of = {}
+        for b, blk in enumerate(part):
+            for i in blk:
+                block_of[i] = b
+        for i in range(n):
+            for j in range(i + 1, n):
+                path.assume(K_[i] == K_[j] if block_of[i] == block_of[j] else K_[i] != K_[j])
+        ctx.models.reply_lines = lines
+        ctx.models.lemma_ctx = ctx
+        ctx.cover('pre_satisfiable', path)
+        mi, node = extract.find(MODULE, 'parse_keywords')
+        f = VFunc(node, MODULE, 'parse_keywords')
+        kw = {} if multiline else {'multiline_values': VBool(False)}
+        n_ok = 0
+        for p, r in ex.call(path, f, [VStr(z3.String('reply_text'))], kw):
+            if isinstance(r, Raise) or not isinstance(r, VDictLit):
+                ctx.oblige('returns_a_dict', p, B(False))
+                continue
+            n_ok += 1
+            pairs = p.heap[('dict', r.did)]
+            ctx.oblige('post.one_entry_per_distinct_key', p, B(len(pairs) == len(part)),
+                       clause='the parsed result maps each requested key to exactly its value')
+            goals = []
+            for blk in part:
+                # the entry whose key is this block's key
+                rep = K_[blk[0]]
+                alts = []
+                for k, v in pairs:
+                    if len(blk) == 1:
+                        okv = _unq_eq(v.t, V_[blk[0]]) if isinstance(v, VStr) else B(False)
+                    else:
+                        items = ex.list_items(p, v) if isinstance(v, VList) else None
+                        okv = zand(*[_unq_eq(it.t, V_[j]) for it, j in zip(items, blk)]) if items is not None and len(items) == len(blk) \
+                            and all(isinstance(it, VStr) for it in items) else B(False)
+                    alts.append(z3.And(k.t == rep, okv) if isinstance(k, VStr) else B(False))
+                goals.append(zor(*alts) if alts else B(False))
+            ctx.oblige('post.every_key_maps_to_exactly_its_values_in_order', p, zand(*goals),
+                       clause='an option Tor reports several times yields all its values as a list in Tor\'s order; empty values are kept')
+        if not n_ok:
+            ctx.oblige('some_normal_exit', path, B(False))
+    return run
+
+
+def unit_parse_shapes(shape, multiline):
+    """shape 'bare': one line that is just a keyword (an unset option); 'continuation': K=V followed by a line without '='"""
+    def run(ctx):
+        ctx.fn(MODULE, 'parse_keywords')
+        import txtorcon.torcontrolprotocol as tcp
+        ex = ctx.ex
+        path = ctx.new_path()
+        K0, V0, C1 = z3.String('key0'), z3.String('value0'), z3.String('line1')
+        for nm, t in (('key0', K0), ('value0', V0), ('line1', C1)):
+            ctx.input(nm, VStr(t))
+        path.assume(z3.Length(K0) > 0)
+        for ch in ('=', ' ', '\n', '\t', '\r', '\x0b', '\x0c', '\x1c', '\x1d', '\x1e', '\x1f'):
+            path.assume(z3.Not(z3.Contains(K0, mk_str(ch))))
+        path.assume(z3.Not(z3.Contains(V0, mk_str('\n'))))
+        path.assume(z3.Not(z3.Contains(C1, mk_str('\n'))))
+        path.assume(z3.Not(z3.Contains(C1, mk_str('='))))
+        path.assume(K0 != mk_str('OK'))
+        if shape == 'continuation' and not multiline:
+            # A9 (GETCONF): the second line is a bare keyword of another option
+            for ch in (' ', '\t', '\r', '\x0b', '\x0c', '\x1c', '\x1d', '\x1e', '\x1f'):
+                path.assume(z3.Not(z3.Contains(C1, mk_str(ch))))
+            path.assume(C1 != K0)
+        # a data line that reads OK is the recorded finding data-line-reads-OK: outside this unit
+        from pyvc.models import re_ws
+        ws = z3.Star(re_ws())
+        path.assume(z3.simplify(z3.Not(z3.InRe(C1, z3.Concat(ws, z3.Re(mk_str('OK')), ws)))))
+        if shape == 'bare':
+            ctx.models.reply_lines = [K0]
+        else:
+            ctx.models.reply_lines = [z3.Concat(K0, mk_str('='), V0), C1]
+        ctx.models.lemma_ctx = ctx
+        ctx.cover('pre_satisfiable', path)
+        mi, node = extract.find(MODULE, 'parse_keywords')
+        f = VFunc(node, MODULE, 'parse_keywords')
+        kw = {} if multiline else {'multiline_values': VBool(False)}
+        n_ok = 0
+        for p, r in ex.call(path, f, [VStr(z3.String('reply_text'))], kw):
+            if isinstance(r, Raise) or not isinstance(r, VDictLit):
+                ctx.oblige('returns_a_dict', p, B(False))
+                continue
+            n_ok += 1
+            pairs = p.heap[('dict', r.did)]
+            is_default = lambda v: (isinstance(v, VConc) and v.obj is tcp.DEFAULT_VALUE) or concrete_of(v) == (True, tcp.DEFAULT_VALUE)
+            if shape == 'bare':
+                ok = len(pairs) == 1 and isinstance(pairs[0][0], VStr) and is_default(pairs[0][1])
+                ctx.oblige('post.keyword_without_value_reads_as_unset', p, zand(B(ok), pairs[0][0].t == K0) if ok else B(False),
+                           clause="the result distinguishes 'unset' from 'set to the empty string'")
+            elif multiline:
+                ok = len(pairs) == 1 and isinstance(pairs[0][0], VStr) and isinstance(pairs[0][1], VStr)
+                ctx.oblige('post.multi_line_value_keeps_all_its_lines_in_order', p,
+                           zand(B(ok), pairs[0][0].t == K0, _unq_eq(pairs[0][1].t, z3.Concat(V0, mk_str('\n'), C1))) if ok else B(False),
+                           clause='a multi-line value of a single requested key comes back with all its lines intact and in order')
+            else:
+                ok = len(pairs) == 2 and all(isinstance(k, VStr) for k, v in pairs)
+                ctx.oblige('post.per_line_mode_gives_value_then_unset_keyword', p,
+                           zand(B(ok and isinstance(pairs[0][1], VStr) and is_default(pairs[1][1])), pairs[0][0].t == K0, pairs[0][1].t == V0)
+                           if ok and isinstance(pairs[0][1], VStr) else B(False),
+                           clause="the result distinguishes 'unset' from 'set to the empty string'")
+        if not n_ok:
+            ctx.oblige('some_normal_exit', path, B(False))
+    return run
+
+
+def make_models_for(unit_name):
+    return ParseModels() if 'parse_keywords@' in unit_name else Models13()
+
+
 def units():
     out = [('C13/unquote', unit_unquote()), ('C13/get_info_single', unit_single('get_info_single'))]
+    for n in (1, 2, 3):
+        for part in _partitions(n):
+            tag = '+'.join(''.join(str(i) for i in blk) for blk in part)
+            for ml in (True, False):
+                out.append(('C13/parse_keywords@%d/%s/%s' % (n, tag, 'multiline' if ml else 'per_line'), unit_parse(n, part, ml)))
+    for shape in ('bare', 'continuation'):
+        for ml in (True, False):
+            out.append(('C13/parse_keywords@%s/%s' % (shape, 'multiline' if ml else 'per_line'), unit_parse_shapes(shape, ml)))
     for ck in ('plain', 'percb'):
         out.append(('C13/data_block_line@%s' % ck, C01.unit_line('RECV_PLUS', ck)))
         out.append(('C13/data_block_start@%s' % ck, C01.unit_line('IDLE', ck)))
@@ -151,6 +366,29 @@ def replay(unit, name, model):
     if 'data_block' in unit:
         return C01.replay(unit.replace('C13/data_block_line', 'C01/lineReceived@RECV_PLUS').replace('@plain', '/plain').replace('@percb', '/percb'),
                           name, model)
+    if 'parse_keywords@' in unit:
+        import re
+        import txtorcon.torcontrolprotocol as tcp
+        m_ = re.search(r'parse_keywords@(\d)/([0-9+]+)/(multiline|per_line)', unit)
+        if not m_:
+            return {'reproduced': False, 'what': 'no native replay for this shape'}
+        n = int(m_.group(1))
+        keys = [model.get('key%d' % i) or ('K%d' % i) for i in range(n)]
+        vals = [model.get('value%d' % i) or '' for i in range(n)]
+        ws = ' \t\n\r\x0b\x0c\x1c\x1d\x1e\x1f='
+        if any((not k) or any(c in k for c in ws) for k in keys) or any('\n' in v for v in vals):
+            return {'reproduced': False, 'what': 'model is outside the precondition (keyword / value shape)'}
+        text = '\n'.join('%s=%s' % kv for kv in zip(keys, vals))
+        got = tcp.parse_keywords(text) if m_.group(3) == 'multiline' else tcp.parse_keywords(text, multiline_values=False)
+        want = {}
+        for k, v in zip(keys, vals):
+            u = tcp.unquote(v)
+            if k in want:
+                want[k] = (want[k] if isinstance(want[k], list) else [want[k]]) + [u]
+            else:
+                want[k] = u
+        # (values wrapped in quotes are the separate finding of C13/unquote: compared after unquote on both sides)
+        return {'reproduced': got != want, 'what': 'parse_keywords(%r) = %r, expected %r' % (text, got, want)}
     return {'reproduced': False, 'what': 'no native replay for this unit'}
 
 
